@@ -19,12 +19,33 @@ RULE = ("names: description = prefix (Ethernet, Eth, Gi, GigabitEthernet, Port-c
         "valid names/ranges (oracle silent, correspondence only). non-trivial = name with >=2 components or a surface variation; "
         "pair with a numeric tie-break beyond the first component; range with an interval of width>=2 or >=3 parts. "
         "Only ASCII digits are generated (the code's \\d / str.isdigit / int() also accept other Unicode decimal digits; the "
-        "model does not). Digit runs have at most 5 digits and an interval spans at most 400 values (run-time bound: __hash__ is (idx+1)**value). Whitespace inside names is one of ' ', TAB, NBSP.")
+        "model does not). Digit runs have at most 5 digits and an interval spans at most 400 values (run-time bound: __hash__ is (idx+1)**value). Whitespace inside names is one of ' ', TAB, NBSP. "
+        "FURTHER ENTRY POINTS (channel intfx, 2000 random + fixed cases in quick): obj = repr(), .name, == against a str / an int, "
+        "str() after assigning .number, and the object rebuilt by CiscoIOSInterface(interface_dict=o.as_dict()), CiscoIOSInterface(o), "
+        "o.from_dict(o.as_dict()) and from_dict with the card overwritten; raw = parse_single_interface() called directly (names with "
+        "commas included); dict = check_interface_dict() and the constructor on dictionaries with the eight keys, a missing key, an "
+        "unknown key, an extra key, no key, random subsets; setpfx = the prefix setter with blanks around the value; guard = ten calls "
+        "with an argument of the wrong type (parse_single_interface(5), parse_intf_short/long(None|'x'), check_interface_dict(5), "
+        "prefix = 5, CiscoIOSInterface(5 | interface_dict=5 | nothing)); xrange = the range stream again with result_type None / "
+        "CiscoIOSInterface / str, reverse on/off and as_list / as_set over every rung of the result_type ladder (auto, None, an "
+        "instance, str, int, float, invalid), container kind and member kind compared, interleaved with iteration, len, str(), repr(), "
+        "obj[k] (inside and beyond the end), == against a freshly parsed range and the raw obj.data (half of these ranges have "
+        "reverse=True: it must show in as_list only, and reading must not change the object). Anchored statements executed by the quick run: "
+        "360 of 469 (was 305); the 109 left are debug logging, CiscoIOSXRInterface (out of scope), and branches that cannot execute "
+        "(card / slot iteration in parse_cisco_interfaces: the port is always an int; the separator ladder of parse_intf_long after "
+        "_sep2 = sep1; groupdict() is None; sys.exit(99) in number) - notes/coverage/C15.json.")
 LEVEL_TEXT = ("Theorems (Lean 4, all inputs): parse(render d) = d for every well-formed description, and parse(render(parse s)) = parse s "
               "for every accepted text s; same-shape interfaces "
               "order by their numeric components and never raise; == implies equal hash and neither < nor >; an accepted range "
               "text (hyphenated prefixes such as Port-channel1-3 included since fix f223496) expands to the begin object with its "
               "last numeric component varied over the denoted integers, each once, ascending; readers leave the data unchanged. "
+              "Further entry points (Model/IntfX.lean): rebuild_from_components (for every accepted text the object rebuilt from as_dict() by "
+              "the dictionary constructor, the copy constructor and from_dict is the same object), repr_is_name, set_prefix_roundtrip, "
+              "check_dict_spec (accepted iff eight known keys), ctor_dict_spec (full key set gives the object back, a missing key other than "
+              "card raises KeyError), range_typed_views (as_list(result_type=None|str) ascending, descending exactly under reverse=True; "
+              "as_set the same members; the constructor's result_type None / CiscoIOSInterface / str all give the same data), "
+              "range_bad_casts (int / float / instance / invalid casts are refused on a non-empty range), range_further_readers (str / repr / "
+              "obj[k] / == / obj.data are functions of the data alone, a range that was only read is == to a freshly parsed one). "
               "The model (hand-written scanners for the five regexes of "
               "CiscoIOSInterface, slot/card/port assignment, rendering, sort_list order, hash, CiscoRange.parse_cisco_interfaces "
               "and its read accessors) is tied to the code by differential runs on every check.")
@@ -160,6 +181,121 @@ def mk_range(text, ops, base=None, values=None, style=None, origin="gen"):
             "req": wire.req("intf", "range", wire.enc_str(text), *ops), "_origin": origin}
 
 
+# ---------------------------------------------------------------- further entry points (channel `intfx`)
+DICT_KEYS = ["prefix", "slot", "card", "port", "digit_separator", "subinterface", "channel", "interface_class"]
+GUARDS = ["psi-int", "short-none", "short-str", "long-none", "long-str", "check-int", "prefix-int", "ctor-int",
+          "ctor-dict-int", "ctor-nothing"]
+VIEW_TYPES = ["auto", "none", "inst", "str", "int", "float", "bad"]
+RANGE_RTS = ["none", "ios", "str"]
+
+
+def mk_obj(s, d=None, origin="gen"):
+    return {"kind": "obj", "s": s, "d": d, "req": wire.req("intfx", "obj", wire.enc_str(s)), "_origin": origin}
+
+
+def mk_raw(s, d=None, origin="gen"):
+    return {"kind": "raw", "s": s, "d": d, "req": wire.req("intfx", "raw", wire.enc_str(s)), "_origin": origin}
+
+
+def mk_dict(s, keys, d=None, origin="gen"):
+    return {"kind": "dict", "s": s, "keys": keys, "d": d, "_origin": origin,
+            "req": wire.req("intfx", "dict", wire.enc_str(s), wire.enc_strs(keys))}
+
+
+def mk_setpfx(s, p, d=None, origin="gen"):
+    return {"kind": "setpfx", "s": s, "p": p, "d": d, "_origin": origin,
+            "req": wire.req("intfx", "setpfx", wire.enc_str(s), wire.enc_str(p))}
+
+
+def mk_guard(g, origin="gen"):
+    return {"kind": "guard", "g": g, "req": wire.req("intfx", "guard", g), "_origin": origin}
+
+
+def mk_xrange(text, rt, rev, ops, base=None, values=None, style=None, origin="gen"):
+    return {"kind": "xrange", "text": text, "rt": rt, "rev": int(bool(rev)), "ops": ops, "base": base, "values": values,
+            "style": style, "_origin": origin,
+            "req": wire.req("intfx", "range", wire.enc_str(text), rt, str(int(bool(rev))), *ops)}
+
+
+def _rand_keys(rng):
+    r = rng.random()
+    keys = list(DICT_KEYS)
+    if r < 0.3:
+        pass
+    elif r < 0.5:
+        keys.remove(rng.choice(DICT_KEYS))
+    elif r < 0.65:
+        keys.remove(rng.choice(DICT_KEYS))
+        keys.append(rng.choice(["extra", "Prefix", "ports", "sub"]))
+    elif r < 0.8:
+        keys.append(rng.choice(["extra", "Prefix", "ports", "sub"]))
+    elif r < 0.85:
+        keys = []
+    else:
+        keys = [k for k in DICT_KEYS if rng.random() < 0.7] + [k for k in ["extra", "x", "y"] if rng.random() < 0.3]
+    rng.shuffle(keys)
+    return keys
+
+
+def _rand_xops(rng):
+    ops = []
+    for _ in range(rng.choice([2, 3, 4, 6, 8])):
+        r = rng.random()
+        if r < 0.5:
+            ops.append(rng.choice(["list", "set"]) + ":" + rng.choice(VIEW_TYPES))
+        elif r < 0.75:
+            ops.append(rng.choice(["str", "repr", "eqfresh", "data", "data", "idx:%d" % rng.choice([0, 0, 1, 2, 3, 7, 50, 500])]))
+        else:
+            ops.append(rng.choice(READS))
+    return ["len"] + ops + ["list:none", "data", "set:auto", "iter", "eqfresh", "len"]
+
+
+X_FIXED_RANGES = ["", "Eth1/1-3,7", "Port-channel1-3", "Serial1/0:1-3,5", "Eth1/1.1-3,.5", "Serial1/0-5 multipoint", "Eth1/3-1",
+                  "Eth1/1,Eth2/3", "Eth1-3", "Eth1/1-3-5", "Eth1/1,,2", "1-3", "Eth1/2/1-3,7"]
+
+
+def _x_cases(rng, tier):
+    if tier != "search":
+        for g in GUARDS:
+            yield mk_guard(g)
+        for s in FIXED_NAMES:
+            yield mk_obj(s)
+            yield mk_raw(s)
+            yield mk_dict(s, list(DICT_KEYS))
+        for t in X_FIXED_RANGES:
+            for rt in RANGE_RTS:
+                for rev in (0, 1):
+                    yield mk_xrange(t, rt, rev, ["len", "iter"] + ["%s:%s" % (m, v) for v in VIEW_TYPES for m in ("list", "set")]
+                                    + ["data", "str", "repr", "idx:0", "idx:3", "idx:4", "eqfresh", "list", "data", "iter"])
+    n = {"quick": 2000, "thorough": 60000, "search": 2000}[tier]
+    for i in range(n):
+        r = rng.random()
+        if r < 0.6:
+            d = _descr(rng)
+            s = _surface(rng, d) if rng.random() < 0.5 else ref_render(d)
+            bad = rng.random() < 0.08
+            if bad:
+                s, d = _malformed(rng, s), None
+            k = rng.random()
+            if k < 0.35:
+                yield mk_obj(s, d)
+            elif k < 0.6:
+                yield mk_raw(s, d)
+            elif k < 0.85:
+                yield mk_dict(s, _rand_keys(rng), d)
+            else:
+                yield mk_setpfx(s, rng.choice(["", " "]) + _prefix(rng) + rng.choice(["", " ", "\t "]), d)
+        else:
+            c = _rand_range(rng)
+            text = c["text"]
+            ops = _rand_xops(rng)
+            rt, rev = rng.choice(RANGE_RTS), rng.random() < 0.5
+            if rng.random() < 0.08:
+                yield mk_xrange(_malformed(rng, text), rt, rev, ops)
+            else:
+                yield mk_xrange(text, rt, rev, ops, c["base"], c["values"], c["style"])
+
+
 def from_corpus(c):
     if c["kind"] == "name":
         return mk_name(c["s"], c.get("d"), "corpus")
@@ -265,7 +401,7 @@ def _too_big(text):
 
 def cases(rng, tier):
     for c in _cases(rng, tier):
-        texts = [c.get("s"), c.get("a"), c.get("b"), c.get("text")]
+        texts = [c.get("s"), c.get("a"), c.get("b"), c.get("text"), c.get("p")]
         if not any(t is not None and _too_big(t) for t in texts):
             yield c
 
@@ -302,12 +438,32 @@ def _cases(rng, tier):
                 yield mk_range(_malformed(rng, c["text"]), c["ops"])
             else:
                 yield c
+    import random
+    yield from _x_cases(random.Random(rng.getrandbits(64) ^ 0xC15), tier)
 
 
 def neighbours(case, rng):
+    for c in _neighbours(case, rng):
+        if not any(t is not None and _too_big(t) for t in (c.get("s"), c.get("a"), c.get("text"))):
+            yield c
+
+
+def _neighbours(case, rng):
     for _ in range(300):
         if case["kind"] == "name":
             yield mk_name(_malformed(rng, case["s"]))
+        elif case["kind"] == "obj":
+            yield mk_obj(_malformed(rng, case["s"]))
+        elif case["kind"] == "raw":
+            yield mk_raw(_malformed(rng, case["s"]))
+        elif case["kind"] == "dict":
+            yield mk_dict(_malformed(rng, case["s"]), case["keys"])
+        elif case["kind"] == "setpfx":
+            yield mk_setpfx(_malformed(rng, case["s"]), case["p"])
+        elif case["kind"] == "guard":
+            return
+        elif case["kind"] == "xrange":
+            yield mk_xrange(_malformed(rng, case["text"]), case["rt"], case["rev"], case["ops"])
         elif case["kind"] == "cmp":
             yield mk_cmp(_malformed(rng, case["a"]), case["b"])
         else:
@@ -315,6 +471,12 @@ def neighbours(case, rng):
 
 
 def nontrivial(case):
+    if case["kind"] in ("obj", "raw", "dict", "setpfx"):
+        return bool(case.get("d"))
+    if case["kind"] == "guard":
+        return True
+    if case["kind"] == "xrange":
+        return bool(case.get("base")) and len(case["values"]) >= 2
     if case["kind"] == "name":
         d = case.get("d")
         return bool(d) and (len(d["nums"]) > 1 or d["sub"] is not None or d["chan"] is not None or case["s"] != ref_render(d))
@@ -339,7 +501,18 @@ def buckets(case, ans):
     if case["kind"] == "cmp" and case.get("da"):
         out.append("same-shape:%s" % (ref_shape(case["da"]) == ref_shape(case["db"])))
         out.append("same-prefix:%s" % (case["da"]["prefix"] == case["db"]["prefix"]))
-    if case["kind"] == "range":
+    if case["kind"] == "dict":
+        ks = case["keys"]
+        out.append("dict-keys:%d%s%s" % (len(ks), ",missing" if any(k not in ks for k in DICT_KEYS) else "",
+                                        ",unknown" if any(k not in DICT_KEYS for k in ks) else ""))
+    if case["kind"] == "guard":
+        out.append("guard:" + case["g"])
+    if case["kind"] == "xrange":
+        out.append("ctor:result_type=%s,reverse=%d" % (case["rt"], case["rev"]))
+        for o in case["ops"]:
+            if ":" in o:
+                out.append("view:" + o)
+    if case["kind"] in ("range", "xrange"):
         out.append("style:%s" % case.get("style"))
         if case.get("base"):
             out.append("iter:" + ("chan" if case["base"]["chan"] is not None else "sub" if case["base"]["sub"] is not None else "port"))
@@ -386,9 +559,168 @@ def _boole(f):
         return "err:TypeError"
 
 
+def _describe3(o, j):
+    return [_render(j), _enc_dict(j), "T" if o == j else "F"]
+
+
+def _try3(o, f):
+    try:
+        return _describe3(o, f())
+    except Exception as e:
+        return [_err(e)]
+
+
+def _enc_view(r, CiscoIOSInterface):
+    kind = "L" if type(r) is list else "S" if type(r) is set else "?"
+    items = list(r)
+    if not items:
+        return kind + "e:"
+    if all(type(x) is CiscoIOSInterface for x in items):
+        tag, names = "o", [str(x) for x in items]
+    elif all(type(x) is str for x in items):
+        tag, names = "s", items
+    else:
+        return kind + "?:" + repr(items)[:60]
+    if kind == "S":
+        names = sorted(names)
+    return kind + tag + ":" + wire.enc_strs(names)
+
+
+def _impl_x(case, CiscoIOSInterface, CiscoRange):
+    kind = case["kind"]
+    if kind == "guard":
+        g = case["g"]
+        try:
+            if g.startswith("ctor"):
+                {"ctor-int": lambda: CiscoIOSInterface(5), "ctor-dict-int": lambda: CiscoIOSInterface(interface_dict=5),
+                 "ctor-nothing": lambda: CiscoIOSInterface()}[g]()
+            else:
+                o = CiscoIOSInterface("Ethernet1")
+                if g == "prefix-int":
+                    o.prefix = 5
+                else:
+                    {"psi-int": lambda: o.parse_single_interface(5), "short-none": lambda: o.parse_intf_short(None),
+                     "short-str": lambda: o.parse_intf_short("x"), "long-none": lambda: o.parse_intf_long(None),
+                     "long-str": lambda: o.parse_intf_long("x"), "check-int": lambda: o.check_interface_dict(5)}[g]()
+            return "ok"
+        except Exception as e:
+            return _err(e)
+    if kind == "raw":
+        o = CiscoIOSInterface("Ethernet1")
+        try:
+            d = o.parse_single_interface(case["s"])
+        except Exception as e:
+            return _err(e)
+        opt = lambda v: "-" if v is None else str(int(v))  # noqa: E731
+        sep = d["digit_separator"]
+        cls = d["interface_class"]
+        return ",".join([wire.enc_str(d["prefix"].strip()), "-" if sep is None else str(ord(sep)), opt(d["slot"]), opt(d["card"]),
+                         opt(d["port"]), opt(d["subinterface"]), opt(d["channel"]),
+                         "-" if cls is None else wire.enc_str(cls.strip())])
+    if kind == "xrange":
+        rt = {"none": None, "ios": CiscoIOSInterface, "str": str}[case["rt"]]
+        try:
+            obj = CiscoRange(case["text"], result_type=rt, reverse=bool(case["rev"]))
+        except Exception as e:
+            return _err(e)
+        view_arg = {"none": None, "str": str, "int": int, "float": float, "bad": bool}
+        out = ["ok"]
+        for op in case["ops"]:
+            f = op.split(":")
+            if len(f) == 2 and f[0] in ("list", "set"):
+                meth = obj.as_list if f[0] == "list" else obj.as_set
+                try:
+                    if f[1] == "auto":
+                        r = meth()
+                    elif f[1] == "inst":
+                        r = meth(result_type=CiscoIOSInterface("Ethernet1"))
+                    else:
+                        r = meth(result_type=view_arg[f[1]])
+                    out.append(_enc_view(r, CiscoIOSInterface))
+                except Exception as e:
+                    n = type(e).__name__
+                    if n not in ERRS + ("ListItemMissingAttribute",):
+                        raise
+                    out.append("err:" + n)
+            elif op == "str":
+                out.append(wire.enc_str(str(obj)))
+            elif op == "repr":
+                out.append(wire.enc_str(repr(obj)))
+            elif f[0] == "idx":
+                try:
+                    m = obj[int(f[1])]
+                    out.append(_render(m) if type(m) is CiscoIOSInterface else "?" + repr(m)[:40])
+                except IndexError:
+                    out.append("err:IndexError")
+            elif op == "eqfresh":
+                r = obj == CiscoRange(case["text"], result_type=None)
+                out.append("T" if r is True else "F" if r is False else "?" + repr(r)[:40])
+            elif op == "data":
+                d = obj.data
+                out.append(" ".join(_render(m) for m in d) if type(d) is list else "?" + repr(d)[:40])
+            else:
+                out.append(_range_op(obj, op))
+        return "|".join(out)
+    # obj / dict / setpfx start from a parsed name
+    try:
+        o = CiscoIOSInterface(case["s"])
+    except Exception as e:
+        return _err(e)
+    if kind == "obj":
+        out = ["ok", wire.enc_str(repr(o)), wire.enc_str(o.name), "T" if o == str(o) else "F", "T" if o == 5 else "F"]
+        p = CiscoIOSInterface(case["s"])
+        p.number = "9/9"
+        out.append(_render(p))
+        out += _try3(o, lambda: CiscoIOSInterface(interface_dict=o.as_dict()))
+        out += _try3(o, lambda: CiscoIOSInterface(o))
+        out += _try3(o, lambda: o.from_dict(o.as_dict()))
+        j = o.from_dict(dict(o.as_dict(), card=7))
+        out += [_render(j), _enc_dict(j)]
+        return "|".join(out)
+    if kind == "dict":
+        d = o.as_dict()
+        dd = {k: d.get(k, "junk") for k in case["keys"]}
+        try:
+            chk = "T" if o.check_interface_dict(dd) is True else "F"
+        except (ValueError, KeyError) as e:
+            chk = "err:" + type(e).__name__
+        try:
+            ctor = "|".join(_describe3(o, CiscoIOSInterface(interface_dict=dd)))
+        except KeyError:
+            ctor = "err:KeyError"
+        except Exception as e:
+            ctor = _err(e)
+        return "|".join(["ok", chk, ctor])
+    if kind == "setpfx":
+        o.prefix = case["p"]
+        return "|".join(["ok", _render(o), _enc_dict(o)])
+    raise AssertionError(kind)
+
+
+def _range_op(obj, op):
+    if op == "len":
+        return str(len(obj))
+    if op == "iter":
+        return " ".join(_render(m) for m in iter(obj))
+    if op == "dicts":
+        return " ".join(_enc_dict(m) for m in obj.data)
+    if op == "list":
+        return " ".join(_render(m) for m in obj.as_list())
+    if op == "set":
+        r = obj.as_set(result_type=str)
+        assert isinstance(r, (set, list))
+        return wire.enc_strs(sorted(r))
+    raise AssertionError(op)
+
+
 def impl(case):
     quiet_ccp()
     from ciscoconfparse2.ccp_util import CiscoIOSInterface, CiscoRange
+    if case["kind"] in ("obj", "raw", "dict", "setpfx", "guard", "xrange"):
+        try:
+            return _impl_x(case, CiscoIOSInterface, CiscoRange)
+        except SystemExit:
+            raise AssertionError("sys.exit() reached")
     try:
         if case["kind"] == "name":
             o = CiscoIOSInterface(case["s"])
@@ -431,7 +763,7 @@ def impl(case):
 
 # ------------------------------------------------------------------ oracle (independent of the Lean model)
 def known_id(case, failure):
-    if case["kind"] == "range" and case.get("base"):
+    if case["kind"] in ("range", "xrange") and case.get("base"):
         last_is_port = case["base"]["sub"] is None and case["base"]["chan"] is None
         if (not last_is_port and case["style"] == "bare" and case["text"].count(",") >= 1
                 and (failure.startswith("well-formed range rejected with err:TypeError") or failure.startswith("bare-part:"))):
@@ -439,8 +771,122 @@ def known_id(case, failure):
     return None
 
 
+def _oracle_x(case, ans):
+    kind = case["kind"]
+    fails = []
+    if kind == "guard":
+        return [] if ans.startswith("err") else [f"a call with an argument of the wrong type ({case['g']}) was accepted"]
+    if kind == "xrange":
+        base, values = case.get("base"), case.get("values")
+        if not base or not values:
+            return []
+        if ans.startswith("err"):
+            return [f"well-formed range rejected with {ans}"]
+        members = [ref_render(ref_vary(base, v)) for v in values]
+        tag = "bare-part: " if case["style"] == "bare" else ""
+        for op, got in zip(case["ops"], ans.split("|")[1:]):
+            f = op.split(":")
+            if op in ("str", "repr"):
+                inner = "[" + ", ".join(members) + "]"
+                exp = inner if op == "str" else f"<CiscoRange {inner} members: <class 'ciscoconfparse2.ccp_util.CiscoIOSInterface'>>"
+                if got != wire.enc_str(exp):
+                    fails.append(f"{tag}{op}() is {wire.dec_str(got)[:100] if got.startswith('s') else got!r}")
+            elif f[0] == "idx":
+                k = int(f[1])
+                exp = wire.enc_str(members[k]) if k < len(members) else "err:IndexError"
+                if got != exp:
+                    fails.append(f"{tag}obj[{k}] gives {wire.dec_str(got) if got.startswith('s') else got} of {len(members)} members")
+            elif op == "eqfresh":
+                if got != "T":
+                    fails.append(f"{tag}the range is not == to a freshly parsed one after reading it")
+            elif op == "data":
+                exp = " ".join(wire.enc_str(m) for m in members)
+                if got != exp:
+                    fails.append(f"{tag}obj.data is {[wire.dec_str(x) for x in got.split(' ')][:12] if got[:1] == 's' else got} expected {members[:12]}")
+            elif len(f) == 2:
+                if f[1] not in ("auto", "none", "str"):
+                    continue      # the property does not say what an int / float cast of an interface is
+                if got.startswith("err"):
+                    fails.append(f"{tag}{op} raised {got}")
+                    continue
+                order = members[::-1] if (case["rev"] and f[0] == "list") else members
+                exp = ("L" if f[0] == "list" else "S") + ("s" if f[1] == "str" else "o") + ":" + \
+                    wire.enc_strs(order if f[0] == "list" else sorted(members))
+                if got != exp:
+                    shown = [wire.dec_str(x) for x in got[3:].split(" ")][:12] if got[2:3] == ":" and got[3:] else got[:40]
+                    fails.append(f"{tag}{op} gives {got[:2]} {shown} expected {exp[:2]} {order[:12]}"
+                                 + (" (reverse=True)" if case["rev"] and f[0] == "list" else ""))
+            elif op == "len" and int(got) != len(members):
+                fails.append(f"{tag}len {got} != {len(members)}")
+            elif op in ("iter", "list"):
+                order = members[::-1] if (case["rev"] and op == "list") else members
+                exp = " ".join(wire.enc_str(m) for m in order)
+                if got != exp:
+                    fails.append(f"{tag}{op} view is {[wire.dec_str(x) for x in got.split(' ')][:12]} expected {order[:12]}")
+            elif op == "set" and got != wire.enc_strs(sorted(members)):
+                fails.append(f"{tag}as_set is {wire.dec_strs(got)[:12]} expected {sorted(members)[:12]}")
+            elif op == "dicts":
+                exp = " ".join(ref_dict(ref_vary(base, v)) for v in values)
+                if got != exp:
+                    fails.append(f"{tag}member components differ: {got[:120]} expected {exp[:120]}")
+        return fails[:3]
+    d = case.get("d")
+    if not d:
+        return []
+    if ans.startswith("err"):
+        return [f"well-formed name rejected with {ans}"]
+    canon, comps = ref_render(d), ref_dict(d)
+    if kind == "raw":
+        return [] if ans == comps else [f"parse_single_interface gives {ans} expected {comps}"]
+    f = ans.split("|")
+    if kind == "obj":
+        if f[1] != wire.enc_str(f"<CiscoIOSInterface {canon}>"):
+            fails.append(f"repr is {wire.dec_str(f[1])!r}")
+        if f[2] != wire.enc_str(canon):
+            fails.append(f".name is {wire.dec_str(f[2])!r} expected {canon!r}")
+        if f[3] != "F" or f[4] != "F":
+            fails.append("an interface compares equal to a str / an int")
+        if f[5] != wire.enc_str(canon):
+            fails.append("str() changed after assigning .number")
+        rebuilt = f[6:-2]
+        e = dict(d)
+        e["nums"] = [d["nums"][0], 7, d["nums"][-1]]
+        if len(d["nums"]) >= 2 and f[-2:] != [wire.enc_str(ref_render(e)), ref_dict(e)]:
+            fails.append(f"from_dict with card=7 gives {f[-2:]}")
+        for i, how in enumerate(["CiscoIOSInterface(interface_dict=o.as_dict())", "CiscoIOSInterface(o)", "o.from_dict(o.as_dict())"]):
+            part = rebuilt[3 * i:3 * i + 3]
+            if len(rebuilt) != 9:
+                fails.append(f"rebuilding from the components failed: {rebuilt[:4]}")
+                break
+            if part != [wire.enc_str(canon), comps, "T"]:
+                fails.append(f"{how} gives {part} expected {canon!r} / {comps} / equal")
+        return fails[:3]
+    if kind == "dict":
+        ks = case["keys"]
+        if sorted(ks) == sorted(DICT_KEYS):
+            if f[1] != "T":
+                fails.append(f"check_interface_dict refuses the components of a parsed name: {f[1]}")
+            if f[2:] != [wire.enc_str(canon), comps, "T"]:
+                fails.append(f"CiscoIOSInterface(interface_dict=as_dict()) gives {f[2:]} expected {canon!r} / {comps} / equal")
+        else:
+            if f[1] == "T":
+                fails.append(f"check_interface_dict accepts the keys {sorted(ks)}")
+            if not f[2].startswith("err"):
+                fails.append(f"CiscoIOSInterface(interface_dict=...) accepts the keys {sorted(ks)}")
+        return fails
+    if kind == "setpfx":
+        e = dict(d)
+        e["prefix"] = case["p"].strip()
+        if f[1] != wire.enc_str(ref_render(e)) or f[2] != ref_dict(e):
+            fails.append(f"after prefix = {case['p']!r}: {wire.dec_str(f[1]) if f[1].startswith('s') else f[1]!r} / {f[2]}")
+        return fails
+    return []
+
+
 def oracle(case, ans):
     fails = []
+    if case["kind"] in ("obj", "raw", "dict", "setpfx", "guard", "xrange"):
+        return _oracle_x(case, ans)
     if case["kind"] == "name":
         d = case.get("d")
         if not d:
